@@ -151,7 +151,7 @@ Definition chk13 (c : case13) : bool * bool * N :=
     with a disagreement. *)
 
 Definition wf_body (d : dres) : bool :=
-  match d with DPanic => true | DErr => true | DHdr h => negb (h_nil h) end.
+  match d with DPanic => true | DValPanic => true | DErr => true | DHdr h => negb (h_nil h) end.
 
 Definition wf_event (ev : event dres) : bool :=
   match ev with
@@ -178,7 +178,7 @@ Proof.
   { destruct e; eauto. }
   cbn in Hwf. apply andb_true_iff in Hwf. destruct Hwf as [Hb _].
   unfold status_err, status_OK, status_NOT_FOUND, dec0.
-  destruct b as [| |h]; cbn in Hb; try discriminate.
+  destruct b as [| |h|]; cbn in Hb; try discriminate.
   - destruct (st =? 1)%Z; [eauto|]. destruct (st =? 2)%Z; eauto.
   - destruct (st =? 1)%Z; cbn; [eauto|]. destruct (st =? 2)%Z; eauto.
   - destruct (st =? 1)%Z; cbn.
@@ -187,6 +187,7 @@ Proof.
     unfold validate_chain, chain_b, fold16.
     destruct ((want =? 0) || (want / 16 =? h_chain h / 16)) eqn:Ec; cbn; [|eauto].
     repeat split; auto. now apply negb_true_iff in Hb.
+  - destruct (st =? 1)%Z; cbn; [eauto|]. destruct (st =? 2)%Z; eauto.
 Qed.
 
 Lemma collect_first_valid_b want : forall k evs last, wf_evs evs = true ->
